@@ -38,11 +38,12 @@ ASSUMPTIONS = [
     "the key tables themselves are the specification of names (their internal consistency is C20's subject)",
     "units that are proper prefixes of longer table entries and, under utf-8, single 8-bit Meta bytes are judged only when they "
     "end a read (the property's own caveat); elsewhere only conservation and absence of failure are demanded",
-    "paste_threshold=None so that one request decodes one key and the situation of each unit is observable",
+    "in a quarter of the runs a paste threshold is set and keys come back inside PasteEvents (decoding in the paste loop); "
+    "the situation of a unit is then still read off the read boundaries",
 ]
 PROBES = ["situation_a", "situation_b", "situation_c_read_size", "situation_c_split", "prefix_key_at_read_end", "meta_byte_at_read_end",
           "utf8_len1", "utf8_len2", "utf8_len3", "utf8_len4", "table_esc_unit", "table_single_unit", "enc_ascii", "enc_latin1",
-          "enc_utf8", "prefix_key_followed_in_buffer", "partial_key_completed_later", "char_single_byte"]
+          "enc_utf8", "prefix_key_followed_in_buffer", "partial_key_completed_later", "char_single_byte", "paste_event"]
 
 def extra_coverage(agg):
     t = _tables()
@@ -121,7 +122,12 @@ def gen_plan(seed, tier, index=0, avoid=()):
     split = slice_ == 4
     follow = slice_ == 5 and "prefix_then_highbyte" not in avoid
     follow_ascii_only = slice_ == 5 and "prefix_then_highbyte" in avoid
-    cfg = {"encoding": enc, "read_size": rng.choice((7, 8, 16, 64, 1024, 1024))}
+    spell = {"utf-8": ("utf-8", "UTF-8", "utf8"), "latin-1": ("latin-1", "ISO-8859-1", "iso8859-1"),
+             "ascii": ("ascii", "ANSI_X3.4-1968", "US-ASCII")}[enc]
+    cfg = {"encoding": enc, "read_size": rng.choice((7, 8, 16, 64, 1024, 1024)),
+           "locale_name": rng.choice(spell),             # what locale.getpreferredencoding() answers with
+           "keynames_enum": rng.random() < 0.4,          # keynames given as events.Keynames member / as string
+           "paste_threshold": rng.choice((None, None, None, 1, 8))}   # decoding inside the paste loop, too
     # systematic visiting: a seeded permutation of the table, this run takes a window of it
     perm = list(t["all"])
     random.Random(1234567).shuffle(perm)
@@ -195,6 +201,11 @@ def _simp(p):
         q = planmod.clone(p)
         q["cfg"]["read_size"] = 1024
         yield q
+    for key, simple in (("keynames_enum", False), ("paste_threshold", None)):
+        if p["cfg"].get(key, simple) != simple:
+            q = planmod.clone(p)
+            q["cfg"][key] = simple
+            yield q
     for i, a in enumerate(p["arrivals"]):
         if "split_at" in a:
             q = planmod.clone(p)
@@ -399,8 +410,8 @@ def _unit_class(b, enc, t):
 
 def _run_mode(p, mode, keep_log):
     cfg = p["cfg"]
-    s = setup.make({"h": 2, "w": 10, "read_size": cfg["read_size"], "encoding": cfg["encoding"], "yield_cap": 2000000},
-                   None, keep_log)
+    s = setup.make({"h": 2, "w": 10, "read_size": cfg["read_size"], "encoding": cfg["encoding"], "yield_cap": 2000000,
+                    "locale_name": cfg.get("locale_name")}, None, keep_log)
     world, kernel = s.world, s.kernel
     res = {"violation": None, "error": None, "probes": world.probes, "faults": world.faults, "nsteps": 0,
            "items": [], "stream": b"", "units": [], "read_bounds": set(), "left_in_buffer": b"", "fetched": []}
@@ -430,7 +441,11 @@ def _exec(p, mode, s, res):
         total_read[0] += len(data)
         res["read_bounds"].add(total_read[0])
     kernel.on_tty_read = on_read
-    inp = Input(in_stream=s.inp, keynames=mode, paste_threshold=None)
+    from curtsies import events as _ev
+    kn = mode
+    if p["cfg"].get("keynames_enum") and hasattr(_ev, "Keynames"):
+        kn = {"bytes": _ev.Keynames.BYTES, "curtsies": _ev.Keynames.CURTSIES, "curses": _ev.Keynames.CURSES}[mode]
+    inp = Input(in_stream=s.inp, keynames=kn, paste_threshold=p["cfg"].get("paste_threshold"))
 
     def fetch(limit=10000):
         n = 0
@@ -453,6 +468,12 @@ def _exec(p, mode, s, res):
                 return False
             if r is None:
                 return True
+            if isinstance(r, _ev.PasteEvent):
+                world.probe("paste_event")
+                for k in r.events:
+                    world.log.add("key", k)
+                    res["items"].append(k)
+                continue
             world.log.add("key", r)
             res["items"].append(r)
         res["violation"] = {"invariant": "decoder_never_finished", "step": 0, "detail": {}}
